@@ -50,6 +50,9 @@ ClassSeq ==
         Cls(<<"seq", "vector", VecI>>, {"root"}, Plain, TRUE),
         Cls(<<"seq", "vector", <<"opt", I16>>>>, {"root"}, Plain, FALSE),
         Cls(<<"seq", "list", <<"uptr", I16>>>>, {"root"}, Plain, FALSE),
+        Cls(<<"seq", "vector", <<"opt", <<"map", "map", I16>>>>>>, {"root"}, Plain, TRUE),
+        Cls(<<"seq", "vector", <<"sptr", <<"map", "umap", I16>>>>>>, {"root"}, Plain, TRUE),
+        Cls(<<"seq", "list", <<"uptr", <<"map", "map", I16>>>>>>, {"root"}, Plain, TRUE),
         Cls(<<"fix", "array", 3, I16>>, {"root"}, Plain, FALSE),
         Cls(<<"fix", "carray", 3, I16>>, {"root"}, Plain, FALSE),
         Cls(<<"fix", "bitset", 3, Bool>>, {"root"}, Plain, FALSE),
@@ -85,7 +88,9 @@ PriorElem(Te, j) ==
   IF Te[1] \in {"i16", "atomic"} THEN <<"i", 70 + j, "stale">>
   ELSE IF Te[1] = "bool" THEN <<"b", TRUE, "stale">>
   ELSE IF Te[1] = "str" THEN <<"s", OldNames[j], "stale">>
+  ELSE IF Te[1] \in {"opt", "uptr", "sptr"} /\ Te[2][1] = "map" THEN <<"some", PriorElem(Te[2], j)>>      \* always engaged
   ELSE IF Te[1] \in {"opt", "uptr", "sptr"} THEN (IF (j % 2) = 1 THEN <<"some", PriorElem(Te[2], j)>> ELSE <<"none">>)
+  ELSE IF Te[1] = "map" THEN <<"map", << <<3, PriorElem(Te[3], j)>> >> >>                                       \* { "c": stale }
   ELSE IF Te[1] = "seq" THEN <<"seq", <<PriorElem(Te[3], j), PriorElem(Te[3], j + 1)>>>>
   ELSE <<"rec", <<"i", 70 + j, "stale">>, <<"s", "old", "stale">>, IF (j % 2) = 1 THEN <<"some", <<"s", "oldp", "stale">>>> ELSE <<"none">>>>
 
@@ -128,6 +133,8 @@ ItemDocs(t, j) ==
   ELSE IF Te = I16 THEN {I(j), Null, <<"big">>}
   ELSE IF Te = Bool THEN {<<"b", TRUE>>, <<"b", FALSE>>}
   ELSE IF Te = Str THEN {S(Names[j]), S(""), Null}
+  ELSE IF Te[1] \in {"opt", "uptr", "sptr"} /\ Te[2][1] = "map" THEN      \* wrapper around a type with a global SerializeObject(), loaded without key
+       {<<"obj", << <<"a", I(j)>> >> >>, <<"obj", << <<"a", I(j)>>, <<"b", I(j + 10)>> >> >>, <<"obj", <<>>>>, Null}
   ELSE IF Te[1] \in {"opt", "uptr"} THEN {I(j), Null}
   ELSE IF Te = VecI THEN {Arr(<<>>), Arr(<<I(j)>>), Arr(<<I(j), I(j + 10)>>), Arr(<<I(j), Null>>), Null}
   ELSE \* Rec
@@ -142,7 +149,10 @@ MaxDocOf(t) == IF t[1] = "fix" THEN t[3] + (IF t[2] = "bitset" THEN 0 ELSE 1) EL
 GrowDocSet(t, d) ==
   IF t[1] = "map" THEN      \* saved from a std::map: keys ascending; key indices {1,2,4} = "a","b","d"
        {<<"obj", Append(d[2], <<Names[k], v>>)>> : k \in {x \in {1, 2, 4} : \A i \in 1..Len(d[2]) : KeyIndex(d[2][i][1]) < x}, v \in MapValueDocs(t[3], 1)}
-  ELSE {Arr(Append(d[2], x)) : x \in ItemDocs(t, DocSize(d) + 1)}
+  ELSE {Arr(Append(d[2], x)) : x \in ItemDocs(t, DocSize(d) + 1) \cup
+            \* bool elements (vector<bool>, bitset): a null item where the shared temporary holds FALSE, i.e. where what
+            \* the code stores for it equals the value A prescribes (a value-initialised element)
+            (IF t[1] \in {"seq", "fix"} /\ ElemT(t) = Bool /\ ~BoolCarry(d[2], 1, FALSE) THEN {Null} ELSE {})}
 
 \* map value documents carry the key index so that values are distinct:  rewritten after the choice
 MapDocFix(t, d) ==
@@ -181,6 +191,7 @@ GrowDoc == /\ Grows(T) /\ DocSize(doc) < MaxDocOf(T)
 \* no size estimate: everything beyond the prior length goes through the "load all left items" loop
 PlainItem(Te, j) ==
   IF Te = Bool THEN <<"b", TRUE>>
+  ELSE IF Te[1] \in {"opt", "uptr", "sptr"} /\ Te[2][1] = "map" THEN <<"obj", << <<"a", I(j)>> >> >>
   ELSE IF Te = Str THEN S(Names[j])
   ELSE IF Te = VecI THEN Arr(<<I(j)>>)
   ELSE IF Te = Rec THEN RecDoc(I(j), S("a"), S("p"))
